@@ -7,9 +7,22 @@ import engine
 import streams
 from common import sub_seed
 
-THEOREMS = ["LNN.C03_and_operator_hull", "LNN.C03_and_operand_hull", "LNN.C03_and_infeasible",
-            "LNN.C03_or_operator_hull", "LNN.C03_or_operand_hull", "LNN.C03_or_infeasible",
-            "LNN.C03_implies_operator_hull", "LNN.C03_implies_operand_hull", "LNN.C03_implies_infeasible"]
+THEOREMS = ["LNN.C03_and_operator_hull",
+            "LNN.C03_and_operand_hull",
+            "LNN.C03_and_infeasible",
+            "LNN.C03_or_operator_hull",
+            "LNN.C03_or_operand_hull",
+            "LNN.C03_or_infeasible",
+            "LNN.C03_implies_operator_hull",
+            "LNN.C03_implies_operand_hull",
+            "LNN.C03_implies_infeasible",
+            "LNN.C03_and_infeasible_reported",
+            "LNN.C03_or_infeasible_reported",
+            "LNN.C03_implies_infeasible_reported",
+            "LNN.C03_engine_and",
+            "LNN.C03_engine_or",
+            "LNN.C03_engine_implies",
+            "LNN.C03_engine_arrest_and"]
 MODULES = ["LnnVerif.Props.C03"]
 FACETS = {"bounds", "contra"}
 ONE, ZERO = Fr(1), Fr(0)
